@@ -2872,6 +2872,8 @@ def adapter_view(a, b):
 
 def intended_alt(U, tr):
     """the adapter as specified: GenericTypeMeta classes stay, everything else is wrapped"""
+    if tr == ("c", U.kObject):
+        return ("w", ("any",))          # _type_to_typing: object is treated as typing.Any
     return ("n", tr) if tr[0] == "g" else ("w", tr)
 
 
@@ -2952,7 +2954,7 @@ def part_adapter_relation(ctx, U, D, use_driver=True):
     scenarios = [
         ("union-vs-base", [("union", (T.Union[ops.AddOp, ops.MulOp],)), ("assoc", (ops.AssociativeOp,)), ("op", (ops.op.Op,))],
          [((ops.add,), "funsor.ops.add"), ((ops.mul,), "funsor.ops.mul"), ((ops.logaddexp,), "funsor.ops.logaddexp"), ((ops.exp,), "funsor.ops.exp")]),
-        ("container-vs-abc", [("seq", (cabc.Sequence,)), ("ints", (T.Tuple[int, ...],)), ("obj", (object,))],
+        ("container-vs-abc", [("seq", (cabc.Sequence,)), ("ints", (T.Tuple[int, ...],)), ("str", (str,))],
          [(((1, 2),), "(1, 2)"), ((("a", 1),), "('a', 1)"), (("s",), "'s'"), ((3,), "3"), ((frozenset([1]),), "frozenset([1])")]),
         ("union-second-arg", [("u", (ops.op.Op, T.Union[int, bool])), ("o", (ops.op.Op, object)), ("a", (ops.AddOp, object)), ("au", (ops.AddOp, T.Union[int, bool]))],
          [((ops.add, 1), "funsor.ops.add, 1"), ((ops.mul, True), "funsor.ops.mul, True"), ((ops.add, "s"), "funsor.ops.add, 's'"), ((ops.exp, 2.5), "funsor.ops.exp, 2.5")]),
@@ -2961,7 +2963,12 @@ def part_adapter_relation(ctx, U, D, use_driver=True):
         def oracle(args):
             """least matching pattern by the RAW relation (deep_isinstance / deep_issubclass), or None"""
             m = [(n, p) for n, p in pats if len(p) == len(args) and all(deep_isinstance(x, q) for x, q in zip(args, p))]
-            best = [n for n, p in m if all(all(deep_issubclass(x, y) for x, y in zip(p, q)) for _, q in m)]
+            def raw_sub(x, y):
+                try:
+                    return deep_issubclass(x, y)
+                except TypeError:       # a typing generic against a plain class: answered by its origin
+                    return deep_issubclass(get_origin(x), y)
+            best = [n for n, p in m if all(all(raw_sub(x, y) for x, y in zip(p, q)) for _, q in m)]
             return ("default" if not m else best[0] if len(best) == 1 else None)
         for order in itertools.permutations(range(len(pats))):
             d = PartialDispatcher(lambda *a: "default")
